@@ -119,7 +119,7 @@ static void run_cell(void)
                 if ((n = ref_fmt_read(c, t, sizeof t)) > 0 && (size_t)n > need) need = (size_t)n;
                 ref_fmt_list(t, sizeof t, crlf ? "\r\n" : "\n", &longest); if (longest > need) need = longest;
                 if (need < 12) need = 12;                    /* room for the "~<k>" payloads */
-                cap = need + 1 + rn(3);
+                cap = need + rn(4);      /* + 0: the longest text of the cell is one byte too long (it exactly fills the buffer, no room for its terminator): ERROR, never a cut line */
         }
         if (ovf) { long k = 4 + ovf_digits + ovf_delta; cap = k < 6 ? 6 : (size_t)k; }      /* delta 0: "+C=<digits>" is capacity-1 characters long, the separator is the last byte */
         if (!shared && big_ubuf && fsm == FSM_U && !ovf) {      /* event cells: a command buffer that is smaller than the event texts, next to an event buffer that holds them */
@@ -136,7 +136,7 @@ static void run_cell(void)
         bool rt = kind == K_READ || kind == K_TEST;
         if (kind == K_WRITE && nvars > 0 && vw_fail >= 0 && vw_fail < nvars) final = "ERROR";
         if (!final && rt) {      /* an automatic text that does not fit its buffer: ERROR (nothing for an event), the handler is not asked */
-                char t[700]; int n = kind == K_READ ? ref_fmt_read(c, t, sizeof t) : ref_fmt_test(c, crlf ? "\r\n" : "\n", t, sizeof t);
+                char t[700]; int n = kind == K_READ ? ref_fmt_read(c, t, sizeof t) : ref_fmt_test(c, (crlf && fsm == FSM_A) ? "\r\n" : "\n", t, sizeof t);      /* an event cell has no command line: the embedded newline is LF */
                 size_t capf = fsm == FSM_A ? W.capA : W.capU;
                 if (n < 0 || (size_t)n >= capf) { final = "ERROR"; CNT("automatic_texts_that_do_not_fit"); if ((size_t)n == capf || (size_t)n == capf + 1) CNT("automatic_texts_one_or_two_bytes_too_long"); }
         }
@@ -164,7 +164,20 @@ static void run_cell(void)
                 default: final = "ERROR"; break;
                 }
         }
-        if (list) { char l[400]; ref_fmt_list(l, sizeof l, "\n", NULL); expect('L', l); }
+        if (list) {      /* the list is flushed line by line: it stops with ERROR at the first line that does not fit the command buffer (with its terminator) */
+                char l[400], e[400]; size_t o = 0; const char *p = l; bool all = true;
+                ref_fmt_list(l, sizeof l, crlf ? "\r\n" : "\n", NULL);
+                while (*p) {
+                        const char *q = p; while (*q == '\r' || *q == '\n') q++;
+                        q = strchr(q, '\n'); size_t n = (size_t)(q - p) + 1;
+                        if (n + 1 > W.capA) { all = false; break; }
+                        for (size_t i = 0; i < n; i++) if (p[i] != '\r') e[o++] = p[i];
+                        p += n;
+                }
+                e[o] = 0;
+                if (o) expect('L', e);
+                if (!all) { final = "ERROR"; CNT("command_lists_cut_by_a_line_that_does_not_fit"); }
+        }
         if (fsm == FSM_A) expect('C', final);
 
         /* ---------- run ---------- */
